@@ -102,14 +102,20 @@ def fresh_module(name, package='fedjax.algorithms'):
   return mod
 
 
-def build(name, cspec=('sgd', 0.1), sspec=('sgd', 1.0), hp=None, noise=0.0, loss=None, grad_fn=None, module=None, **kw):
+def build(name, cspec=('sgd', 0.1), sspec=('sgd', 1.0), hp=None, noise=0.0, loss=None, grad_fn=None, module=None,
+          regularizer=None, copt=None, sopt=None, **kw):
   """Constructs algorithm `name` on the toy world. Returns Built(name, algo, init_state, config)."""
   import fedjax
   import jax.numpy as jnp
   hp = dict(hp or {'batch_size': 2, 'num_epochs': 1, 'seed': 0})
   bhp = fedjax.ShuffleRepeatBatchHParams(**hp)
-  copt = toy.fedjax_optimizer(cspec)
-  sopt = toy.fedjax_optimizer(sspec)
+  # `copt` / `sopt` let several algorithms share the very same optimizer OBJECTS (as `loss=` shares the loss object);
+  # `regularizer` is handed to the algorithms that take one (mime, mime_lite, hyp_cluster).
+  copt = copt if copt is not None else toy.fedjax_optimizer(cspec)
+  sopt = sopt if sopt is not None else toy.fedjax_optimizer(sspec)
+  regkw = {'regularizer': regularizer} if regularizer is not None else {}
+  if regkw and name not in ('mime', 'mime_lite', 'hyp_cluster'):
+    raise ValueError(f'{name} takes no regularizer')
   loss = loss or per_example_loss(noise)
   mod = module or _module(name)
   config = dict(name=name, cspec=cspec, sspec=sspec, hp=hp, noise=noise, **kw)
@@ -125,7 +131,7 @@ def build(name, cspec=('sgd', 0.1), sspec=('sgd', 1.0), hp=None, noise=0.0, loss
     if name == 'mime_lite':
       extra['client_delta_clip_norm'] = kw.pop('client_delta_clip_norm', None)
     algo = getattr(mod, name)(loss, copt, bhp, fedjax.PaddedBatchHParams(batch_size=kw.pop('grads_batch_size', 4)),
-                              server_learning_rate=kw.pop('server_learning_rate', 1.0), **extra)
+                              server_learning_rate=kw.pop('server_learning_rate', 1.0), **extra, **regkw)
   elif name == 'agnostic_fed_avg':
     nd = kw.pop('num_domains', 2)
     algo = mod.agnostic_federated_averaging(
@@ -137,7 +143,7 @@ def build(name, cspec=('sgd', 0.1), sspec=('sgd', 1.0), hp=None, noise=0.0, loss
   elif name == 'hyp_cluster':
     k = kw.pop('num_clusters', 1)
     spread = kw.pop('cluster_spread', 0.3)
-    algo = mod.hyp_cluster(loss, copt, sopt, fedjax.PaddedBatchHParams(batch_size=kw.pop('max_batch_size', 4)), bhp)
+    algo = mod.hyp_cluster(loss, copt, sopt, fedjax.PaddedBatchHParams(batch_size=kw.pop('max_batch_size', 4)), bhp, **regkw)
     init_wrap = lambda params: algo.init(
         [toy.tmap(lambda a, i=i: jnp.asarray(a) + jnp.asarray(i * spread, dtype=np.asarray(a).dtype), params)
          for i in range(k)])
